@@ -8,5 +8,7 @@
 
 pub mod backend;
 pub mod diagnostics;
+#[cfg(incan_verif)]
+pub mod verif;
 
 pub use backend::IncanLanguageServer;
